@@ -243,6 +243,52 @@ func (c *Client) LoginCoalesced(login, pw string, name string, icon uint16) bool
 	return true
 }
 
+// LoginBurst sends handshake, login, (for the 1.5+ flow) the agreed transaction and two more requests in ONE
+// write, without waiting for any answer in between - a byte stream like any other, which TCP may cut anywhere.
+func (c *Client) LoginBurst(login, pw string, name string, icon uint16) bool {
+	if c.Conn == nil {
+		c.Connect()
+	}
+	fields := []rp.Field{
+		rp.F(rp.FUserLogin, rp.Obfuscate([]byte(login))),
+		rp.F(rp.FUserPassword, rp.Obfuscate([]byte(pw))),
+	}
+	var trans []rp.Tran
+	if name != "" {
+		fields = append(fields, rp.FS(rp.FUserName, name), rp.F16(rp.FUserIconID, icon))
+		trans = append(trans, rp.Tran{Type: rp.TLogin, Fields: fields})
+	} else {
+		fields = append(fields, rp.F16(rp.FVersion, 190))
+		trans = append(trans, rp.Tran{Type: rp.TLogin, Fields: fields})
+		trans = append(trans, rp.Tran{Type: rp.TAgreed, Fields: []rp.Field{rp.FS(rp.FUserName, c.Name), rp.F16(rp.FUserIconID, icon), rp.F16(rp.FOptions, 0)}})
+	}
+	trans = append(trans, rp.Tran{Type: rp.TGetUserNameList}, rp.Tran{Type: rp.TKeepAlive})
+	buf := rp.Handshake()
+	var ids []uint32
+	for _, t := range trans {
+		t.ID = c.nextID
+		c.nextID++
+		c.Sent[t.ID] = t.Type
+		ids = append(ids, t.ID)
+		buf = append(buf, t.Encode()...)
+	}
+	if c.SendRaw(buf) != nil {
+		return false
+	}
+	for _, id := range ids {
+		r, ok := c.Reply(id, defTimeout)
+		if !ok || r.Err != 0 {
+			return false
+		}
+	}
+	if string(c.HSReply) != string(rp.HandshakeOK) {
+		return false
+	}
+	c.LoggedIn = true
+	c.WaitFor(func() bool { return c.find(rp.TUserAccess) != nil }, defTimeout)
+	return true
+}
+
 // Agree completes the 1.5+ login flow.
 func (c *Client) Agree(name string, icon uint16, options uint16, autoReply string) bool {
 	f := []rp.Field{rp.FS(rp.FUserName, name), rp.F16(rp.FUserIconID, icon), rp.F16(rp.FOptions, options)}
